@@ -618,3 +618,107 @@ def load_subs_collect_contract(bcast_res=True, root=True):
                  region=_ls_coll_region, raises=lambda S, a, e: z3.BoolVal(False), hooks={"all_subs": chain_lemma})
     c.region_name = "collection of the processed rows (bcast_res=%s, %s)" % (bcast_res, "root" if root else "other ranks")
     return c
+
+
+# ------------------------------------------------------------ generator.shape_to_functions: gathering the rewritten trees (C13, C01, C11)
+NE = z3.Function("n_extra", I, I)                 # number of rewritten trees found by rank q
+ET = z3.Function("extra.tree", I, I, Fn)          # k-th rewritten tree of rank q (label array, opaque)
+EF = z3.Function("extra.fun", I, I, Label)        # its function string
+EO = z3.Function("extra.orig", I, I, Label)       # the string of the tree it was derived from
+GEF = z3.Function("global.extra.fun", I, Label)
+GEO = z3.Function("global.extra.orig", I, Label)
+
+
+def _stf_gather_region(fnode):
+    for k, s in enumerate(fnode.body):
+        if isinstance(s, _ast.Assign) and isinstance(s.value, _ast.Call) and getattr(s.value.func, "attr", None) == "gather" and getattr(s.targets[0], "id", None) == "extra_tree":
+            end = len(fnode.body)
+            for m in range(k, len(fnode.body)):
+                if isinstance(fnode.body[m], _ast.Return):
+                    end = m
+                    break
+            return fnode.body[k:end]
+    return None
+
+
+def stf_gather_contract(root=True):
+    """Tail of shape_to_functions: every rank found NE(rank) rewritten trees and holds three parallel lists (tree, string, string of the
+    original).  Afterwards extra_fun and extra_orig are, on every rank, the ranks' lists joined in rank order, and they are ALIGNED: with
+    OFF(q) = NE(0) + ... + NE(q-1), entry OFF(q) + k of each list is the k-th entry of rank q's list (on rank 0 the same holds for extra_tree)."""
+    from pyvc import models_np2
+    from pyvc.models import SUMI, named_array
+
+    def rows(eng, name):
+        mk = {"extra_tree": lambda q, k: VFn(ET(q, k)), "extra_fun": lambda q, k: VLabel(EF(q, k)), "extra_orig": lambda q, k: VLabel(EO(q, k))}[name]
+        return lambda q: _row(eng, NE(q), lambda k, q=q: mk(q, k))
+
+    def nearr(eng):
+        k = z3.Int("k!ch")
+        return named_array(eng, z3.Lambda([k], NE(k)), "CHL", extra_triggers=False)
+
+    def m_gather(eng, st, args, kwargs, node):
+        name = st.ghost["coll"].get(id(node))
+        if name not in ("extra_tree", "extra_fun", "extra_orig"):
+            raise Unsupported("shape_to_functions gathers %r: no rank-indexed specification in the sidecar" % name)
+        same(eng, st, args[0], rows(eng, name)(R), "guarantee for gather(%s): the local list is the specified list of this rank" % name, z3.BoolVal(True), node)
+        return VMaybeNone(R != 0, st.alloc(HSeq(P, rows(eng, name))))
+
+    def m_bcast(eng, st, args, kwargs, node):
+        name = st.ghost["coll"].get(id(node))
+        G = {"extra_fun": GEF, "extra_orig": GEO}.get(name)
+        if G is None:
+            raise Unsupported("shape_to_functions broadcasts %r: no specification in the sidecar" % name)
+        b = st.alloc(HSeq(SUMI(nearr(eng), P), lambda p: VLabel(G(p)), etype=T.label))
+        same(eng, st, args[0], b, "guarantee for bcast(%s): on the root the list sent is the ranks' lists joined in rank order" % name, R == 0, node)
+        return b
+
+    def setup(eng, st, args):
+        models_np2.install(eng)
+        st.env["rank"], st.env["size"] = VInt(R), VInt(P)
+        eng.models["comm.gather"] = m_gather
+        eng.models["comm.bcast"] = m_bcast
+        st.ghost["coll"] = _collective_targets(eng.find_function("shape_to_functions"))
+        q, k = z3.Ints("q!ax k!ax")
+        A = nearr(eng)
+        eng.axioms.append(z3.ForAll([q], NE(q) >= 0, patterns=[NE(q)]))
+        eng.axioms.append(z3.ForAll([q, k], z3.Implies(z3.And(0 <= q, q < P, 0 <= k, k < NE(q)),
+                                                       z3.And(GEF(SUMI(A, q) + k) == EF(q, k), GEO(SUMI(A, q) + k) == EO(q, k))), patterns=[EF(q, k)]))
+        eng.axioms.append(z3.ForAll([q, k], z3.Implies(z3.And(0 <= q, q < P, 0 <= k, k < NE(q)), GEO(SUMI(A, q) + k) == EO(q, k)), patterns=[EO(q, k)]))
+        st.assume(R == 0 if root else R != 0)
+
+    def requires(S, a):
+        return [("0 <= rank < size", z3.And(0 <= R, R < P))]
+
+    def ensures(S, a, res):
+        eng = S.eng
+        A = nearr(eng)
+        q, k = z3.Int(fresh_name("q!sk")), z3.Int(fresh_name("k!sk"))
+        rng = z3.And(0 <= q, q < P, 0 <= k, k < NE(q))
+        p = SUMI(A, q) + k
+        from pyvc.models import sum_unfold
+        S.st.assume(sum_unfold(A, q, SUMI))          # the definition of the prefix sum, at the (arbitrary) rank q
+        out = []
+        for name, fn in (("extra_fun", EF), ("extra_orig", EO)):
+            v = S.var(name)
+            if not isinstance(v, VRef):
+                out.append(("%s is a list on every rank" % name, z3.BoolVal(False)))
+                continue
+            o = S.seq(v)
+            out.append(("%s has one entry per rewritten tree of any rank" % name, o.len == SUMI(A, P)))
+            out.append(("%s[OFF(q) + k] is entry k of rank q's list (rank order; the two lists are aligned)" % name, z3.Implies(rng, o.get(p).t == fn(q, k))))
+        if root:
+            v = S.var("extra_tree")
+            if isinstance(v, VMaybeNone):
+                v = v.val
+            if not isinstance(v, VRef):
+                out.append(("extra_tree is the joined list on rank 0", z3.BoolVal(False)))
+            else:
+                o = S.seq(v)
+                out.append(("rank 0: extra_tree has the same length and is aligned with the two string lists", z3.And(o.len == SUMI(A, P), z3.Implies(rng, o.get(p).t == ET(q, k)))))
+        return out
+
+    c = Contract("shape_to_functions", {"extra_tree": lambda eng, st: rows(eng, "extra_tree")(R), "extra_fun": lambda eng, st: rows(eng, "extra_fun")(R),
+                                        "extra_orig": lambda eng, st: rows(eng, "extra_orig")(R)},
+                 requires=requires, ensures=ensures, setup=setup, region=_stf_gather_region, raises=lambda S, a, e: z3.BoolVal(False))
+    c.region_name = "gathering the rewritten trees (%s)" % ("root" if root else "other ranks")
+    return c
